@@ -1090,7 +1090,9 @@ class QuantityMeta(ClassWithDefinitionMeta):
         unit._qty_cls = cls
         if isinstance(define_as, Term):
             unit._definition = define_as
-            unit._equiv = define_as.normalized().num_elem or ONE
+            # multiplying by ONE forces the factor to a Decimal or Fraction
+            # (an int given in the definition would stay an int otherwise)
+            unit._equiv = ONE * (define_as.normalized().num_elem or ONE)
         else:
             assert define_as is None, "Unknown type of Unit definition."
             unit._definition = None
